@@ -8,6 +8,14 @@ made the way the user manager's polling job reports them (`FriendListChangedEven
 through the shares API. The management task is not started: a `cycle` op runs the real `_management_job()` once
 when a cycle has been requested, so that requests can be placed before and after it at will.
 
+Live family (`case['live']`): the REAL `UserManager` (its polling job started, only the server's answers are stubbed) and
+the transfer manager's REAL management task are running under virtual time. Configuration changes reach the managers
+through the settings: `settings.users.friends` / `.blocked` assigned or mutated in place (announced by the user
+manager's own poll), `settings.shares.directories` edited (entries dropped / added / changed, lists assigned or mutated
+in place) followed by `load_from_settings()`; the harness never runs a cycle itself — `wait` ops let virtual time pass
+and whatever the code's event path requested runs. Two probes (the management queue's `get`, the poll job's entry)
+record WHEN the real job / poll ran, so that the model can be fed `poll` / `cycle` at exactly those points.
+
 Model side: the same history through `Driver/C08.lean` (`Model/Entitle.lean` on the C07 models).
 Monitor: the property statement evaluated from the harness's own book-keeping (files it put on disk, the settings it
 applied), independent of the model.
@@ -33,6 +41,9 @@ F_SEARCHES, F_SHARES, F_UPLOADS = 4, 8, 32
 FLAG_CHOICES = [32, 32, 32, 4, 4, 8, 36, 40, 12, 44, 63, 1, 16, 3]
 TASK_METHODS = ['initialize', 'start_transferring', 'complete', 'fail', 'pause']
 CONFIG_OPS = ('friends', 'blocked', 'share', 'unshare', 'mode')
+LIVE_CONFIG_OPS = ('sfriends', 'sblocked', 'reload')      # through the settings; `scan` changes nothing the truth tracks
+SETTLE = 2.0        # a `wait` of at least this long is a settled point: >= 1 poll of the user manager (every 1 s) and
+                    # every management cycle requested by then (the job sleeps <= 0.25 s between runs) are over
 PATH_VARIANTS = ['exact', 'exact', 'exact', 'exact', 'upper', 'lower', 'dblsep', 'fwd', 'trail', 'lead', 'noat',
                  'unknown', 'dironly']
 
@@ -367,6 +378,281 @@ def _gen_states_case(rng: random.Random) -> dict:
 
 
 # ------------------------------------------------------------------------------------------------
+# live family: configuration through the settings, the code's own event path runs the cycles
+# ------------------------------------------------------------------------------------------------
+
+class _LiveGen:
+    """Book-keeping shared by the two live generators: what the settings say now, which directories are shared, how much
+    virtual time has passed since a polled list was last touched (a polled list is not changed twice within one polling
+    interval — the known finding C08-settings-flip-within-poll-interval is kept out of the generated cases)."""
+
+    def __init__(self, rng, files, dirs):
+        self.rng = rng
+        self.files = files
+        self.dirs = dirs                     # directories a case may share
+        self.ops: list = []
+        self.friends: list = []
+        self.blocked: dict = {}
+        self.shared: dict = {}               # dir -> (mode, users), in the order of the settings
+        self.since = {'f': 99.0, 'b': 99.0}  # virtual seconds since settings.users.friends / .blocked were last changed
+        self.uploads: list = []              # (user, spec) in creation order (may over-count: refused requests)
+        self.api_only = False
+
+    def wait(self, dt):
+        self.ops.append(['wait', dt])
+        for k in self.since:
+            self.since[k] += dt
+
+    def settle(self):
+        self.wait(self.rng.choice([2.0, 2.5, 3.0]))
+
+    def spec(self, f=None, var=None):
+        rng = self.rng
+        f = f or rng.choice(self.files)
+        d = c07._innermost(list(self.shared), f)
+        if d is None or rng.random() < 0.1:
+            owners = [x for x in self.dirs if x == '.' or f.startswith(x + '/')]
+            d = rng.choice(owners or self.dirs)
+        rel = f if d == '.' else (f[len(d) + 1:] if f.startswith(d + '/') else os.path.basename(f))
+        return {'d': d, 'f': rel, 'var': var or rng.choice(['exact'] * 8 + ['upper', 'dblsep', 'unknown'])}
+
+    def request(self, u=None, spec=None):
+        rng = self.rng
+        if self.uploads and rng.random() < 0.3 and spec is None:
+            u, spec = rng.choice(self.uploads)
+        else:
+            u = rng.randrange(3) if u is None else u
+            spec = spec or self.spec()
+        if spec['var'] == 'exact':
+            self.uploads.append((u, spec))
+        self.ops.append([rng.choice(['queue', 'queue', 'treq']), u, spec])
+
+    def drive(self):
+        rng = self.rng
+        if not self.uploads:
+            return self.request()
+        k = rng.randrange(min(len(self.uploads), 6))
+        x = rng.random()
+        if x < 0.6:
+            self.ops.append(['meth', k, rng.choice(TASK_METHODS)])
+        elif x < 0.8:
+            self.ops.append(['abort', k])
+        else:
+            self.ops.append(['requeue', k])
+
+    def reload(self, new: dict, style=None):
+        self.shared = dict(new)
+        self.ops.append(['reload', [[d, m, list(us)] for d, (m, us) in new.items()],
+                         style or self.rng.choice(['inplace', 'inplace', 'inplace', 'mixed', 'assign'])])
+
+    def change(self):
+        """one configuration change; through the settings unless the case manages its directories by the API"""
+        rng = self.rng
+        for _ in range(20):
+            k = rng.random()
+            if k < 0.2:
+                if self.since['f'] < 1.0:
+                    continue
+                new = _gen_users(rng)
+                if new == self.friends:
+                    new = [u for u in range(3) if u not in self.friends][:2]
+                self.friends = new
+                self.since['f'] = 0.0
+                self.ops.append(['sfriends', rng.choice(['inplace', 'inplace', 'assign']), list(new)])
+                return
+            if k < 0.4:
+                if self.since['b'] < 1.0:
+                    continue
+                new = _gen_blocked(rng, self.blocked)
+                if new == self.blocked:
+                    continue
+                self.blocked = new
+                self.since['b'] = 0.0
+                self.ops.append(['sblocked', rng.choice(['inplace', 'inplace', 'assign']), dict(new)])
+                return
+            if k < 0.45:
+                self.ops.append(['scan'])
+                return
+            if self.api_only:
+                x = rng.random()
+                if x < 0.45 and self.shared:
+                    d = rng.choice(sorted(self.shared))
+                    m, us = _gen_mode(rng)
+                    if self.shared[d][0] == 'users' and rng.random() < 0.6:
+                        # the users list of a named-users directory loses / gains one user
+                        m, us = 'users', self._edit_users(self.shared[d][1])
+                    self.shared[d] = (m, us)
+                    self.ops.append(['mode', d, m, us] + (['alias'] if rng.random() < 0.6 else []))
+                elif x < 0.7 and self.shared:
+                    d = rng.choice(sorted(self.shared))
+                    del self.shared[d]
+                    self.ops.append(['unshare', d])
+                else:
+                    d = rng.choice(self.dirs)
+                    m, us = _gen_mode(rng)
+                    if d not in self.shared:
+                        self.shared[d] = (m, us)
+                    self.ops.append(['share', d, m, us])
+                return
+            new = dict(self.shared)
+            x = rng.random()
+            if x < 0.3 and new:                               # a directory is dropped from the settings
+                del new[rng.choice(sorted(new))]
+            elif x < 0.38 and new:                            # all of them are
+                new = {}
+            elif x < 0.6 and new:                             # a user is taken off / put on a users list
+                cands = [d for d in new if new[d][0] == 'users'] or sorted(new)
+                d = rng.choice(cands)
+                new[d] = ('users', self._edit_users(new[d][1] if new[d][0] == 'users' else [0, 1, 2]))
+            elif x < 0.78 and new:                            # the mode changes
+                d = rng.choice(sorted(new))
+                new[d] = _gen_mode(rng)
+            elif x < 0.95:                                    # a directory is added (sometimes re-ordered in front)
+                free = [d for d in self.dirs if d not in new]
+                if not free:
+                    continue
+                d = rng.choice(free)
+                if rng.random() < 0.3:
+                    new = {d: _gen_mode(rng), **new}
+                else:
+                    new[d] = _gen_mode(rng)
+            # else: reloaded as it is
+            self.reload(new)
+            return
+
+    def _edit_users(self, us):
+        rng = self.rng
+        us = list(us)
+        if us and rng.random() < 0.65:
+            us.remove(rng.choice(us))
+        else:
+            free = [u for u in range(3) if u not in us]
+            if free:
+                us.append(rng.choice(free))
+                us.sort()
+        return us
+
+    def search(self):
+        rng = self.rng
+        f = rng.choice(self.files)
+        ws = c07._split_words(os.path.basename(f)) or ['a']
+        self.ops.append(['search', rng.randrange(3), c07._recase(rng, rng.choice(ws)), rng.choice(['server', 'file', 'dist'])])
+
+    def rounds(self, n):
+        """n rounds of: change(s) interleaved with requests / state methods / short waits, a settled point, sometimes the
+        change undone and another settled point"""
+        rng = self.rng
+        for _ in range(n):
+            for _ in range(rng.choice([1, 1, 1, 2, 3])):
+                self.change()
+                for _ in range(rng.choice([0, 0, 1, 2])):
+                    x = rng.random()
+                    if x < 0.3:
+                        self.wait(rng.choice([0.0, 0.05, 0.3, 0.7, 1.2]))
+                    elif x < 0.6:
+                        self.request()
+                    elif x < 0.85:
+                        self.drive()
+                    elif x < 0.93:
+                        self.search()
+                    else:
+                        self.ops.append(['shares', rng.randrange(3)])
+            self.settle()
+            if rng.random() < 0.3:
+                self.drive()
+
+    def case(self):
+        return {'live': True, 'cap': self.rng.choice([100, 100, 100, 2]), 'files': self.files, 'ops': self.ops}
+
+
+def _gen_live_case(rng: random.Random) -> dict:
+    """random tree, 1..3 directories (often nested) shared through the settings or (1 case in 4) through the API"""
+    while True:
+        dirs_, files = c07._gen_tree(rng)
+        files = files[:rng.choice([2, 3, 5, 8])]
+        if files:
+            break
+    holders = sorted({'/'.join(f.split('/')[:k]) for f in files for k in range(1, f.count('/') + 1)})
+    cand = holders or ['.']
+    if rng.random() < 0.15:
+        cand.append('.')
+    rng.shuffle(cand)
+    cand = cand[:4]
+    g = _LiveGen(rng, files, cand)
+    g.api_only = rng.random() < 0.25
+    if rng.random() < 0.7:
+        g.friends = _gen_users(rng)
+        if g.friends:
+            g.ops.append(['sfriends', 'assign', list(g.friends)])
+    if rng.random() < 0.3:
+        g.blocked = _gen_blocked(rng, {})
+        g.ops.append(['sblocked', 'assign', dict(g.blocked)])
+    chosen = cand[:rng.choice([1, 2, 2, 3])]
+    if g.api_only:
+        for d in chosen:
+            m, us = _gen_mode(rng)
+            g.shared[d] = (m, us)
+            g.ops.append(['share', d, m, us])
+    else:
+        g.reload({d: _gen_mode(rng) for d in chosen}, style='assign')
+    g.settle()
+    for _ in range(rng.choice([1, 2, 3, 4])):
+        g.request()
+        if rng.random() < 0.5:
+            g.drive()
+    if rng.random() < 0.5:
+        g.settle()
+    g.rounds(rng.choice([1, 2, 2, 3]))
+    return g.case()
+
+
+def _gen_live_states_case(rng: random.Random) -> dict:
+    """the layout of `_gen_states_case` (an everyone / friends / users directory, one upload per reachable state), the
+    changes made through the settings and announced by the code itself"""
+    w = rng.choice(['song', 'Song', 'LIVE', 'café'])
+    files = ['pub/' + c07._gen_name(rng, 2) + ' ' + w + '.mp3', 'fr/' + w + ' ' + c07._gen_name(rng, 2) + '.flac',
+             'us/' + c07._gen_name(rng, 1) + '_' + w + ' x.ogg', 'us/in/' + w + ' y.ogg']
+    g = _LiveGen(rng, files, ['pub', 'fr', 'us', 'us/in'])
+    g.api_only = rng.random() < 0.15
+    g.friends = [0, 1]
+    g.ops.append(['sfriends', rng.choice(['assign', 'inplace']), [0, 1]])
+    base = {'pub': ('everyone', []), 'fr': ('friends', []), 'us': ('users', [0, 2])}
+    if rng.random() < 0.4:
+        base['us/in'] = ('users', [0, 1, 2])
+    if g.api_only:
+        for d, (m, us) in base.items():
+            g.shared[d] = (m, us)
+            g.ops.append(['share', d, m, us])
+    else:
+        g.reload(base, style='assign')
+    g.settle()
+    recipes = [[], [], ['initialize'], ['initialize', 'start_transferring'], ['pause'],
+               ['initialize', 'start_transferring', 'complete'], ['initialize', 'fail'], ['ABORT'],
+               ['initialize', 'start_transferring', 'pause'], ['initialize', 'start_transferring', 'ABORT']]
+    k = 0
+    seen = set()
+    for _ in range(rng.choice([3, 4, 6])):
+        u = rng.choice([0, 0, 1, 2])
+        f = rng.choice(files)
+        if (u, f) in seen:
+            continue
+        seen.add((u, f))
+        d = c07._innermost(list(g.shared), f)
+        m, us = g.shared[d]
+        entitled = m == 'everyone' or (m == 'friends' and u in g.friends) or (m == 'users' and u in us)
+        spec = {'d': d, 'f': f[len(d) + 1:], 'var': 'exact'}
+        g.ops.append([rng.choice(['queue', 'treq']), u, spec])
+        if entitled:
+            g.uploads.append((u, spec))
+            for mth in rng.choice(recipes):
+                g.ops.append(['abort', k] if mth == 'ABORT' else ['meth', k, mth])
+            k += 1
+    g.settle()
+    g.rounds(rng.choice([2, 3, 4]))
+    return g.case()
+
+
+# ------------------------------------------------------------------------------------------------
 # implementation side
 # ------------------------------------------------------------------------------------------------
 
@@ -403,6 +689,29 @@ class _Net:
     def queue_server_messages(self, *messages):
         self.server += list(messages)
         return []
+
+
+class _LiveNet(_Net):
+    """the live family runs the real UserManager: its tracking tasks get the server's AddUser answer at once"""
+
+    async def wait_for_server_message(self, message_class, fields=None, timeout=10):
+        from aioslsk.protocol import messages as M
+        await asyncio.sleep(0)
+        return M.AddUser.Response(username=(fields or {}).get('username', ''), exists=True, status=2)
+
+
+class _ProbeQueue(asyncio.Queue):
+    """TransferManager._management_queue with one observation point: `get()` returning is the instant at which
+    `_management_job` wakes up and snapshots + clears the flags."""
+
+    def __init__(self, log, maxsize=0):
+        super().__init__(maxsize=maxsize)
+        self._log = log
+
+    async def get(self):
+        item = await super().get()
+        self._log.append('job')
+        return item
 
 
 class _Users:
@@ -460,12 +769,19 @@ def _run_impl(case: dict) -> dict:
     from aioslsk.exceptions import SharedDirectoryError, InvalidStateTransition
     from aioslsk.protocol import messages as M
 
+    from contextlib import ExitStack
+    from vlib.simloop import settle, patched_clock
+    from aioslsk.settings import SharedDirectorySettingEntry
+
     logging.getLogger('aioslsk').setLevel(logging.CRITICAL)
     shm.extract_attributes = lambda filepath: []
     root = os.path.realpath(tempfile.mkdtemp(prefix='c08-'))
     loop = SimLoop()
     asyncio.set_event_loop(loop)
     obs: list = []
+    live = bool(case.get('live'))
+    log: list = []                 # live: 'poll' / 'job' in the order in which the real jobs ran
+    stack = ExitStack()
 
     def ap(rel):
         return root if rel == '.' else os.path.join(root, rel)
@@ -483,16 +799,37 @@ def _run_impl(case: dict) -> dict:
         settings.searches.receive.max_results = case['cap']
         settings.transfers.limits.upload_slots = 0          # nothing is started: states are driven by the ops
         bus = EventBus()
-        net = _Net()
-        users = _Users()
+        if live:
+            from aioslsk.user.manager import UserManager
+            stack.enter_context(patched_clock(loop))
+            net = _LiveNet()
+            users = UserManager(settings, bus, net)
+        else:
+            net = _Net()
+            users = _Users()
         shares = SharesManager(settings, bus, net)
         xfer = TransferManager(settings, bus, users, shares, net)
+        if live:
+            xfer._management_queue = _ProbeQueue(log, maxsize=1)
+            real_poll = users._management_task.task_coro
+
+            async def probed_poll(context):
+                log.append('poll')
+                return await real_poll(context)
+            users._management_task.task_coro = probed_poll
         search = SearchManager(settings, bus, shares, xfer, net)
         peer = PeerManager(settings, bus, users, shares, xfer, net)
         keep = [shares, xfer, search, peer]                  # the bus holds listeners weakly
         session = Session(user=User(name='me'), ip_address='1.2.3.4', greeting='', client_version=1, minor_version=1)
         run(bus.emit(SessionInitializedEvent(session, raw_message=None)))
-        if not xfer._management_queue.empty():               # the cycle login asks for
+        if live:
+            async def start_jobs():
+                users._management_task.start()               # the poll of settings.users.* (every second)
+                xfer._management_task.start()                # the management cycle, whenever one is requested
+            run(start_jobs())
+            run(settle())
+            log.clear()
+        elif not xfer._management_queue.empty():             # the cycle login asks for
             run(xfer._management_job())
         # alias of every directory a case may name (a pure function of the absolute path)
         names = {'.'}
@@ -504,6 +841,8 @@ def _run_impl(case: dict) -> dict:
             for o2 in ([op] + list(op[2]) if op[0] == 'cycle*' else [op]):
                 if o2[0] in ('share', 'unshare', 'mode'):
                     names.add(o2[1])
+                if o2[0] == 'reload':
+                    names.update(e[0] for e in o2[1])
             if op[0] in ('dir', 'queue', 'treq'):
                 names.add(op[2]['d'])
         alias = {d: shares.generate_alias(os.path.normpath(os.path.abspath(ap(d)))) for d in sorted(names)}
@@ -562,21 +901,111 @@ def _run_impl(case: dict) -> dict:
             if kind in ('share', 'unshare', 'mode'):
                 try:
                     if kind == 'share':
-                        d = shares.add_shared_directory(ap(op[1]), share_mode=DirectoryShareMode(op[2]),
-                                                        users=[USERS[u] for u in op[3]])
-                        keep.append(d)
-                        run(shares.scan_directory_files(d))
+                        lst = [USERS[u] for u in op[3]]
+
+                        async def add_and_scan():
+                            # one step (the inline executor never yields): the index is complete before the cycle the
+                            # addition requests can run — populating the index is not part of the property
+                            d = shares.add_shared_directory(ap(op[1]), share_mode=DirectoryShareMode(op[2]), users=lst)
+                            await shares.scan_directory_files(d)
+                            return d
+                        keep.append(run(add_and_scan()))
+                        passed[op[1]] = lst
                     elif kind == 'unshare':
                         keep.append(shares.remove_shared_directory(ap(op[1])))
+                        passed.pop(op[1], None)
                     else:
-                        shares.update_shared_directory(ap(op[1]), share_mode=DirectoryShareMode(op[2]),
-                                                       users=[USERS[u] for u in op[3]])
+                        if len(op) > 4 and op[4] == 'alias' and op[1] in passed:
+                            # the caller edits the very list object it handed over earlier and passes it again
+                            lst = passed[op[1]]
+                            lst[:] = [USERS[u] for u in op[3]]
+                        else:
+                            lst = [USERS[u] for u in op[3]]
+                        shares.update_shared_directory(ap(op[1]), share_mode=DirectoryShareMode(op[2]), users=lst)
+                        passed[op[1]] = lst
                     res = 'ok'
                 except SharedDirectoryError:
                     res = 'already-shared' if kind == 'share' else 'not-shared'
                 return {'res': res, 'flag': flag()}
+            if kind == 'sfriends':
+                # settings.users.friends becomes op[2]; nothing is emitted by the harness
+                new = {USERS[u] for u in op[2]}
+                old = set(settings.users.friends)
+                if op[1] == 'assign':
+                    settings.users.friends = set(new)
+                else:
+                    cur = settings.users.friends
+                    for x in old - new:
+                        cur.discard(x)
+                    for x in sorted(new - old):
+                        cur.add(x)
+                return {'changed': new != old, 'flag': flag()}
+            if kind == 'sblocked':
+                new = {USERS[int(u)]: BlockingFlag(b) for u, b in op[2].items()}
+                old = dict(settings.users.blocked)
+                if op[1] == 'assign':
+                    settings.users.blocked = dict(new)
+                else:
+                    cur = settings.users.blocked
+                    for x in set(old) - set(new):
+                        del cur[x]
+                    for x in sorted(new):
+                        if old.get(x) != new[x]:
+                            cur[x] = new[x]
+                return {'changed': new != old, 'flag': flag()}
+            if kind == 'reload':
+                # settings.shares.directories becomes op[1] = [[dir, mode, users], ...] in that order, then
+                # load_from_settings(), then every listed directory is scanned (as after add_shared_directory)
+                entries, style = op[1], op[2]
+                if len({e[0] for e in entries}) != len(entries):
+                    raise ValueError(f'two settings entries for one directory: {op!r}')
+
+                def entry(d, m, us):
+                    return SharedDirectorySettingEntry(path=ap(d), share_mode=DirectoryShareMode(m),
+                                                       users=[USERS[u] for u in us])
+                if style == 'assign':                       # a new list of new entries
+                    settings.shares.directories = [entry(*e) for e in entries]
+                elif style in ('inplace', 'mixed'):         # the list object and the entries that stay are edited
+                    cur = settings.shares.directories
+                    want = {ap(e[0]) for e in entries}
+                    have = {}
+                    for e in list(cur):
+                        if e.path not in want:
+                            cur.remove(e)
+                        else:
+                            have[e.path] = e
+                    for d, m, us in entries:
+                        e = have.get(ap(d))
+                        names_ = [USERS[u] for u in us]
+                        if e is None:
+                            cur.append(entry(d, m, us))
+                            continue
+                        if e.share_mode.value != m:
+                            e.share_mode = DirectoryShareMode(m)
+                        if list(e.users) != names_:
+                            if style == 'inplace':          # the users list object itself is edited
+                                for x in [x for x in e.users if x not in names_]:
+                                    e.users.remove(x)
+                                for x in names_:
+                                    if x not in e.users:
+                                        e.users.append(x)
+                            else:
+                                e.users = names_
+                    order = {ap(e[0]): i for i, e in enumerate(entries)}
+                    cur.sort(key=lambda e: order[e.path])
+                else:
+                    raise ValueError(op)
+                async def load_and_scan():
+                    # one step, see `share`
+                    shares.load_from_settings()
+                    for d in list(shares.shared_directories):
+                        keep.append(d)
+                        await shares.scan_directory_files(d)
+                run(load_and_scan())
+                return {'res': 'ok', 'flag': flag()}
             raise ValueError(f'not a configuration op: {op!r}')
 
+        passed: dict[str, list] = {}          # the users list object handed to the shares API for each directory
         state_gate = _StateGate()
 
         def attach_gate():
@@ -586,8 +1015,20 @@ def _run_impl(case: dict) -> dict:
 
         for op in case['ops']:
             kind = op[0]
-            if kind in CONFIG_OPS:
+            if live:
+                if kind in ('cycle', 'cycle*', 'friends', 'blocked'):
+                    raise ValueError(f'{kind!r} is not an op of the live family: {op!r}')
+                live_before = uploads()
+            if kind in CONFIG_OPS or kind in LIVE_CONFIG_OPS:
                 obs.append(config_op(op))
+            elif kind == 'scan':
+                run(shares.scan())
+                obs.append({})
+            elif kind == 'wait':
+                if not live or not (0 <= op[1] <= 60):
+                    raise ValueError(op)
+                run(asyncio.sleep(op[1]))
+                obs.append({'idle': None})
             elif kind == 'cycle*':
                 # one management cycle SUSPENDED at a real await of the job (op[1] = 'track': the user-tracking calls
                 # of manage_user_tracking; 'state': inside a state transition gathered by manage_shares_changed), the
@@ -718,8 +1159,20 @@ def _run_impl(case: dict) -> dict:
                 obs.append({'res': res, 'before': prev, 'uploads': uploads(), 'flag': flag()})
             else:
                 raise ValueError(f'unknown op {op!r}')
+            if live:
+                # whatever the op's real event path requested runs now (nothing here calls a cycle or a poll)
+                run(settle())
+                o = obs[-1]
+                o['ev'] = list(log)
+                log.clear()
+                o.setdefault('before', live_before)
+                o['uploads'] = uploads()
+                o['flag'] = flag()
+                if kind == 'wait':
+                    o['idle'] = xfer._management_queue.empty() and not xfer._management_flags
         del keep
     finally:
+        stack.close()
         try:
             pending = [t for t in asyncio.all_tasks(loop) if not t.done()]
             for t in pending:
@@ -764,7 +1217,9 @@ def _strings(x):
             yield from _strings(v)
 
 
-def _model_lines(case: dict, alias: dict) -> tuple[list[str], list[int]]:
+def _model_lines(case: dict, alias: dict, obs: Optional[list] = None) -> tuple[list[str], list]:
+    """live cases need `obs`: the model is fed `poll` / `cycle` where the real poll / management job ran"""
+    live = bool(case.get('live'))
     chars = set('*-\\ @/.zx')
     for s in _strings([case['files'], case['ops']]):
         chars.update(s)
@@ -810,7 +1265,54 @@ def _model_lines(case: dict, alias: dict) -> tuple[list[str], list[int]]:
             return f'unshare {_enc_path(op[1])}'
         if k == 'mode':
             return f'mode {_enc_path(op[1])} {mode(op[2], op[3])}'
+        if k == 'sfriends':
+            return 'sfriends ' + (','.join(str(u) for u in sorted(set(op[2]))) if op[2] else '-')
+        if k == 'sblocked':
+            new = {int(u): int(b) for u, b in op[2].items()}
+            return 'sblocked ' + (','.join(f'{u}:{b}' for u, b in sorted(new.items())) if new else '-')
+        if k == 'reload':
+            return f'reload {files}' + ''.join(f' {_enc_path(d)} {_cps(alias[d])} {mode(m, us)}' for d, m, us in op[1])
         raise ValueError(op)
+
+    def own_line(op) -> Optional[str]:
+        k = op[0]
+        if k in CONFIG_OPS or k in LIVE_CONFIG_OPS:
+            return config_line(op)
+        if k == 'scan':
+            return f'scan {files}'
+        if k == 'wait':
+            return None
+        if k == 'phrases':
+            return 'phrases ' + (';'.join(_cps(p) if p else '_' for p in op[1]) if op[1] else '-')
+        if k == 'search':
+            return f'search {op[1]} {_cps(op[2])}'.rstrip()
+        if k == 'shares':
+            return f'shares {op[1]}'
+        if k == 'dir':
+            return f'dir {op[1]} {_cps(_resolve_path(op[2], alias))}'.rstrip()
+        if k in ('queue', 'treq'):
+            return f'{k} {op[1]} {_cps(_resolve_path(op[2], alias))}'
+        if k == 'meth':
+            return f'meth {op[1]} {op[2]}'
+        if k in ('abort', 'requeue'):
+            return f'{k} {op[1]}'
+        raise ValueError(op)
+
+    if live:
+        if obs is None:
+            raise ValueError('live case: the model lines follow the observed poll / job instants')
+        for i, op in enumerate(case['ops']):
+            w: dict = {'own': None}
+            ln = own_line(op)
+            if ln is not None:
+                w['own'] = len(lines)
+                lines.append(ln)
+            for ev in (obs[i].get('ev', []) if i < len(obs) else []):
+                lines.append({'poll': 'poll', 'job': 'cycle'}[ev])
+            w['show'] = len(lines)
+            lines.append('show')
+            where.append(w)
+        return lines, where
 
     for op in case['ops']:
         k = op[0]
@@ -882,7 +1384,20 @@ def _show_listing(lst) -> str:
     return ' '.join(sorted(ents))
 
 
-def _compare(case: dict, impl: dict, out: list[str], where: list[int]):
+def _cmp_request(k, o, m, head_only=False):
+    r = o['reply']
+    if r is None:
+        rs = '-'
+    else:
+        want_kind = 'queue-failed' if k == 'queue' else 'transfer-reply'
+        if r[0] != want_kind or not r[2] or o['nreplies'] != 1 or (k == 'treq' and r[3]):
+            return (r, f'one {want_kind} (not allowed) echoing the request')
+        rs = _FAIL_NAME.get(r[1], repr(r[1]))
+    s = f'reply={rs}' if head_only else f'reply={rs}|{_show_uploads(o)}'
+    return None if s == m else (s, m)
+
+
+def _compare(case: dict, impl: dict, out: list[str], where: list):
     """First difference between implementation and model, or None."""
     obs = impl['obs']
     for i, op in enumerate(case['ops']):
@@ -891,6 +1406,30 @@ def _compare(case: dict, impl: dict, out: list[str], where: list[int]):
         if o is None:
             return (i, 'missing impl observation', None)
         k = op[0]
+        if isinstance(w, dict) and 'show' in w:
+            # live family: the op's own answer, then the uploads after the polls / cycles that really ran
+            if w['own'] is not None:
+                m = out[w['own']]
+                d = None
+                if k in ('sfriends', 'sblocked', 'scan'):
+                    pass
+                elif k == 'reload':
+                    d = None if o['res'] == m else (o['res'], m)
+                elif k in ('queue', 'treq'):
+                    d = _cmp_request(k, o, m.split('|', 1)[0], head_only=True)
+                elif k in ('meth', 'abort', 'requeue'):
+                    d = None if o['res'] == m.split('|', 1)[0] else (o['res'], m)
+                else:
+                    d = _compare({'cap': case['cap'], 'ops': [op]}, {'obs': [o]}, [m], [0])
+                    d = None if d is None else d[1:]
+                if d is not None:
+                    return (i, d[0], d[1])
+            s_ = _show_uploads(o)
+            if s_ != out[w['show']]:
+                return (i, f'after the op and what it triggered {o.get("ev")}: {s_}', out[w['show']])
+            if k == 'wait' and op[1] >= SETTLE and not o['idle']:
+                return (i, 'a management cycle is still requested after a settling wait', 'idle')
+            continue
         if k == 'cycle*':
             first, last = out[w['first']], out[w['last']]
             if not o['idle']:
@@ -960,17 +1499,9 @@ def _compare(case: dict, impl: dict, out: list[str], where: list[int]):
             if s != m:
                 return (i, s, m)
         elif k in ('queue', 'treq'):
-            r = o['reply']
-            if r is None:
-                rs = '-'
-            else:
-                want_kind = 'queue-failed' if k == 'queue' else 'transfer-reply'
-                if r[0] != want_kind or not r[2] or o['nreplies'] != 1 or (k == 'treq' and r[3]):
-                    return (i, r, f'one {want_kind} (not allowed) echoing the request')
-                rs = _FAIL_NAME.get(r[1], repr(r[1]))
-            s = f'reply={rs}|{_show_uploads(o)}'
-            if s != m:
-                return (i, s, m)
+            d = _cmp_request(k, o, m)
+            if d is not None:
+                return (i, d[0], d[1])
         elif k == 'cycle':
             s = _show_uploads(o)
             if s != m:
@@ -1055,7 +1586,18 @@ def _monitor(case: dict, impl: dict) -> list[Violation]:
     dir_vs: list[Violation] = []      # the known finding: recorded once, does not end the monitoring of the case
     t = _Truth(case, impl['alias'])
     obs = impl['obs']
+    live = bool(case.get('live'))
     changed_since_cycle = False
+    # uploads the USER aborted (harness book-keeping of its own `abort` / `requeue` ops, not the reason the code stores)
+    user_aborted: set = set()
+    # live family: uploads acted upon (requests, state methods, user abort / re-queue) since the last configuration change:
+    # their state at the next settled point is the result of those later actions, the reconcile clause does not judge them
+    touched: set = set()
+    touched_settle: set = set()       # ... and since the last settled point
+    settled: list = []                # live family: the uploads at the last settled point
+    # live family: what the user manager's last poll saw (known finding C08-settings-flip-within-poll-interval)
+    polled = {'friends': set(), 'blocked': {}}
+    flipped: list = []
 
     def uname(u):
         return USERS[u]
@@ -1063,14 +1605,24 @@ def _monitor(case: dict, impl: dict) -> list[Violation]:
     def apply_truth(op, o) -> bool:
         """book-keeping of one configuration op; True when it changed something"""
         k = op[0]
-        if k == 'friends':
-            ch = set(op[1]) != t.friends
-            t.friends = set(op[1])
+        if k in ('friends', 'sfriends'):
+            new = set(op[1] if k == 'friends' else op[2])
+            ch = new != t.friends
+            if k == 'sfriends' and ch and new == polled['friends']:
+                flipped.append('friends')
+            t.friends = new
             return ch
-        if k == 'blocked':
-            new = {int(u): int(b) for u, b in op[1].items()}
+        if k in ('blocked', 'sblocked'):
+            new = {int(u): int(b) for u, b in (op[1] if k == 'blocked' else op[2]).items()}
             ch = new != t.blocked
+            if k == 'sblocked' and ch and new == polled['blocked']:
+                flipped.append('blocked')
             t.blocked = new
+            return ch
+        if k == 'reload':
+            new = {d: (m, list(us)) for d, m, us in op[1]}
+            ch = new != t.shared
+            t.shared = new
             return ch
         if o['res'] != 'ok':
             return False
@@ -1080,38 +1632,55 @@ def _monitor(case: dict, impl: dict) -> list[Violation]:
             t.shared[op[1]] = (op[2], list(op[3]))
         return True
 
-    def judge(tag, o):
+    def reconcile_violation(sig, what, observed, required):
+        if flipped:
+            sig = 'C08-settings-flip-within-poll-interval'
+            what += (f' [settings.users.{flipped[0]} was changed and changed back to what the user manager last polled '
+                     f'within one polling interval: the change was never announced]')
+        vs.append(Violation(sig, what, case, observed=observed, required=required))
+
+    def judge(tag, o, before_list=None, skip=()):
         """clause (4) at a settled point: `o['before']` -> `o['uploads']` against the configuration now"""
-        before = {(a, p): (st, r) for a, p, st, r in o['before']}
+        before = {(a, p): (st, r) for a, p, st, r in (o['before'] if before_list is None else before_list)}
         for a, p, st, r in o['uploads']:
-            bst, br = before.get((a, p), (None, None))
-            if bst in ('COMPLETE', 'FAILED', 'VIRGIN', None):
+            if (a, p) in user_aborted or (a, p) in skip:
+                continue                                  # aborted on the user's request: checked for every op
+            bst, br = before.get((a, p), ('new' if before_list is not None else None, None))
+            if bst in ('COMPLETE', 'FAILED', 'VIRGIN', None) or (before_list is not None and st in ('COMPLETE', 'FAILED', 'VIRGIN')):
                 continue
             u = USERS.index(a)
             ok, why = t.permitted(u, p)
-            if bst == 'ABORTED' and br == 'Requested':
-                continue                                  # checked for every op
             if not ok:
                 if st != 'ABORTED':
-                    vs.append(Violation('C08-not-aborted',
+                    reconcile_violation('C08-not-aborted',
                                         f'{tag}: after the management cycle the upload of {p!r} to {a} is {st} although: '
-                                        f'{why}', case, observed=[a, p, st, r], required=[a, p, 'ABORTED', why]))
+                                        f'{why}', [a, p, st, r], [a, p, 'ABORTED', why])
                 elif r != why:
-                    vs.append(Violation('C08-wrong-abort-reason',
+                    reconcile_violation('C08-wrong-abort-reason',
                                         f'{tag}: the upload of {p!r} to {a} is ABORTED with reason {r!r}, expected {why!r}',
-                                        case, observed=[a, p, st, r], required=[a, p, 'ABORTED', why]))
+                                        [a, p, st, r], [a, p, 'ABORTED', why])
+            elif bst == 'ABORTED' and (a, p) in touched_settle:
+                # re-queued by an earlier cycle and driven on since: only "not aborted any more" is demanded
+                if st == 'ABORTED':
+                    reconcile_violation('C08-not-requeued',
+                                        f'{tag}: the upload of {p!r} to {a} was aborted for {br!r}, is permitted again '
+                                        f'and is still ABORTED ({r!r})', [a, p, st, r], [a, p, 'QUEUED', None])
             elif bst == 'ABORTED':
                 if st != 'QUEUED':
-                    vs.append(Violation('C08-not-requeued',
+                    reconcile_violation('C08-not-requeued',
                                         f'{tag}: the upload of {p!r} to {a} was aborted for {br!r}, is permitted again '
-                                        f'and is {st} ({r!r}) after the management cycle', case,
-                                        observed=[a, p, st, r], required=[a, p, 'QUEUED', None]))
+                                        f'and is {st} ({r!r}) after the management cycle', [a, p, st, r], [a, p, 'QUEUED', None])
             elif st == 'ABORTED':
-                vs.append(Violation('C08-aborted-although-permitted',
+                reconcile_violation('C08-aborted-although-permitted',
                                     f'{tag}: the upload of {p!r} to {a} was {bst}, is permitted and was aborted ({r!r})',
-                                    case, observed=[a, p, st, r], required=[a, p, bst, None]))
+                                    [a, p, st, r], [a, p, bst, None])
             if vs:
                 break
+
+    def key_of(o, k):
+        """(user, path) of the k-th upload"""
+        ups = o.get('uploads') or []
+        return (ups[k][0], ups[k][1]) if 0 <= k < len(ups) else None
 
     for i, op in enumerate(case['ops']):
         if vs:
@@ -1121,19 +1690,56 @@ def _monitor(case: dict, impl: dict) -> list[Violation]:
             break
         k = op[0]
         tag = f'op #{i} {json.dumps(op)[:120]}'
-        # uploads aborted on the user's request stay aborted whatever anybody else does
-        if 'before' in o and k != 'requeue':
-            after = {(u, p): (st, r) for u, p, st, r in o['uploads']}
-            for u, p, st, r in o['before']:
-                if st == 'ABORTED' and r == 'Requested' and after.get((u, p)) != ('ABORTED', 'Requested'):
-                    vs.append(Violation('C08-requested-not-sticky',
-                                        f'{tag}: the upload of {p!r} to {u} was aborted on the user\'s request and is now '
-                                        f'{after.get((u, p))}', case, observed=o['uploads'], required=[u, p, 'ABORTED', 'Requested']))
+        # uploads aborted on the user's request stay aborted whatever anybody else does — until the user queues them again
+        if 'uploads' in o:
+            now = {(u, p): (st, r) for u, p, st, r in o['uploads']}
+            mine = key_of(o, op[1]) if k in ('abort', 'requeue', 'meth') else None
+            for key in sorted(user_aborted):
+                if k == 'requeue' and key == mine:
+                    continue
+                if now.get(key, (None, None))[0] != 'ABORTED':
+                    vs.append(Violation('C08-user-aborted-upload-queued-again',
+                                        f'{tag}: the upload of {key[1]!r} to {key[0]} was aborted on the user\'s request '
+                                        f'and is now {now.get(key)} although the user did not queue it again', case,
+                                        observed=o['uploads'], required=[key[0], key[1], 'ABORTED']))
+                    break
+            if k == 'abort' and o.get('res') == 'changed' and mine is not None:
+                user_aborted.add(mine)
+            elif k == 'requeue' and o.get('res') == 'changed' and mine is not None:
+                user_aborted.discard(mine)
+            if k in ('abort', 'requeue', 'meth') and mine is not None:
+                touched.add(mine)
+                touched_settle.add(mine)
+            elif k in ('queue', 'treq'):
+                touched.add((uname(op[1]), o['path']))
+                touched_settle.add((uname(op[1]), o['path']))
         if vs:
             break
-        if k in CONFIG_OPS:
+        if live:
+            for ev in o.get('ev', []):
+                if ev == 'poll':
+                    polled['friends'] = set(t.friends)
+                    polled['blocked'] = dict(t.blocked)
+        if k in LIVE_CONFIG_OPS:
             if apply_truth(op, o):
                 changed_since_cycle = True
+                touched.clear()
+        elif k == 'wait':
+            if op[1] >= SETTLE:
+                # a settled point of the live family: every change made so far has been announced by the code's own
+                # event path (or never will be) and the cycles it requested have run
+                if changed_since_cycle:
+                    judge(tag + ' [settled]', o, before_list=settled, skip=touched)
+                changed_since_cycle = False
+                touched.clear()
+                touched_settle.clear()
+                settled = list(o['uploads'])
+        elif k == 'scan':
+            pass
+        elif k in CONFIG_OPS:
+            if apply_truth(op, o):
+                changed_since_cycle = True
+                touched.clear()
         elif k == 'phrases':
             t.phrases = list(op[1])
         elif k == 'search':
@@ -1332,7 +1938,7 @@ class C08(Property):
                 if 'EXC' in io or 'SKIP' in io:
                     spans.append(None)
                     continue
-                ls, where = _model_lines(c, io['alias'])
+                ls, where = _model_lines(c, io['alias'], io['obs'])
                 spans.append((len(lines), len(ls), where))
                 lines += ls
             model_out = common.run_driver(self.driver_file, lines)
